@@ -448,7 +448,9 @@ def h_legacy_guards(eng):
         eng.oblige(f"{U}/post.window-check-once-with-the-whole-list", ok and tac_calls[0][0] is ta)
         if ok:
             now = tac_calls[0][1]
-            eng.oblige(f"{U}/post.window-check-at-the-occurrence-time", z3.And(now.t == t) if isinstance(now, SV) else False)
+            ob = eng.oblige(f"{U}/post.window-check-at-the-occurrence-time", z3.And(now.t == t) if isinstance(now, SV) else False)
+            if ob.status == "refuted":
+                ob.witness = {"signature": "stale-occurrence-time", "what": "time_active", "subsystem": "legacy"}
         time_ok = z3.Bool("active_1") if ok else z3.BoolVal(False)
     else:
         eng.oblige(f"{U}/post.no-window-check-without-time_active", tac_calls == [])
@@ -546,7 +548,7 @@ def harnesses():
     hs.append(Harness("StateActiveDecorator.handle_dispatch", h_state_active_dec, units=[(DS_PY, "StateActiveDecorator.handle_dispatch")]))
     hs.append(Harness("hold_off.chain", h_hold_off_chain, units=[(D_PY, "FunctionDecoratorManager.dispatch"), (DT_PY, "TimeActiveDecorator.handle_dispatch")], replay=replay_hold))
     hs.append(Harness("State.notify_var_get", c04.h_notify_var_get, units=[(f"{PKG}/state.py", "State.notify_var_get")]))
-    hs.append(Harness("legacy.guards", h_legacy_guards, units=[(T_PY, "TrigInfo.trigger_watch")], max_paths=30000))
+    hs.append(Harness("legacy.guards", h_legacy_guards, units=[(T_PY, "TrigInfo.trigger_watch")], replay=replay_c07, max_paths=30000))
     hs.append(Harness("guard-frame", h_guard_frame, units=[(DT_PY, "TimeActiveDecorator.handle_dispatch"), (DS_PY, "StateActiveDecorator.handle_dispatch")]))
     hs.append(Harness("bounded.windows", bounded_windows, units=[(T_PY, "TrigTime.timer_active_check"), (T_PY, "TrigTime.parse_date_time")], kind="bounded"))
     return hs
